@@ -19,7 +19,7 @@ PROPERTY = "C08"
 
 META = {
     "bounds": {
-        "quick": "17 placement patterns (shadowing, definitions inside taken / untaken .if and else branches (not scopes), fallback, isolation, sibling reuse, forward references, depth-3 nesting, qualified exports before/after/inside blocks) x 4 scope kinds x 3 definition kinds (label, =, :=), rename twins and unrelated-definition twins; start address and every constant value symbolic",
+        "quick": "19 placement patterns (shadowing, named scopes inside loop iterations and inside a macro applied several times, definitions inside taken / untaken .if and else branches (not scopes), fallback, isolation, sibling reuse, forward references, depth-3 nesting, qualified exports before/after/inside blocks) x 4 scope kinds x 3 definition kinds (label, =, :=), rename twins and unrelated-definition twins; start address and every constant value symbolic",
         "thorough": "same plus VERIF_SEED-drawn 600 random scope trees (depth <= 3, <= 5 scopes, names a,b)",
     },
     "outside": ["scope trees beyond the bound", "duplicate definitions of a name in one scope", "qualified names with more than one dot (not expressible in the source language)", "references with inferred-width instructions (C02)"],
@@ -97,6 +97,13 @@ def patterns():
             out.append((f"macro-arg-names/swapped/{dk}-{dk2}", [g.d("lo", dk), g.d("hi", dk2), ("scope", "macro", "pair", body, [("lo", "hi", ("name", "hi")), ("hi", "lo", ("name", "lo"))])]))
             g = Gen()
             out.append((f"macro-arg-names/in-block/{dk}-{dk2}", [g.d("lo", dk), g.s("block", [g.d("hi", dk2), ("scope", "macro", "pair2", [R("lo"), R("hi")], [("lo", "hi", ("name", "hi")), ("hi", "lo", ("name", "lo"))])])]))
+    # a named scope inside a construct that is expanded several times: its exports stay in that expansion
+    for dk in DEFKINDS:
+        g = Gen()
+        out.append((f"export-in-loop-iterations/{dk}", [("scope", "loop", "it", [g.s("named", [g.d("a", dk), R("a")], "ns"), R("ns.a")], 2), g.s("block", [R("ns.a")])]))
+        g = Gen()
+        body = [g.s("named", [g.d("a", dk)], "ns"), R("ns.a")]
+        out.append((f"export-in-macro-applied-twice/{dk}", [("scope", "macro", "mk", body, []), R("ns.a"), ("scope", "macro", "mk", body, []), g.s("named", [("scope", "macro", "mk", body, []), R("ns.a")], "outer")]))
     # conditionals are not scopes: what the selected branch defines belongs to the enclosing scope
     for dk in DEFKINDS:
         for br in ("then-taken", "else-taken", "then-untaken", "else-untaken"):
